@@ -21,9 +21,9 @@ ASSUMPTIONS = ['a kill happens between two events, an event being an output writ
                'outputs are compared modulo Created/LastChange/processingDateTime; logits by unpickled content; JPEGs byte-wise', '"complete page" = all its requested outputs exist when the run starts']
 N = {'quick': 0, 'thorough': 0}      # filled in by scenarios()
 CLASSES = ['single_crash', 'multi_crash', 'no_crash']
-REQUIRED = ['scenarios_with_folders_from_the_configuration_file', 'scenarios_with_glob_characters_in_the_output_path', 'lmdb_scenarios', 'decoder_batch_runs', 'scenarios', 'crash_runs', 'resume_runs', 'crashes_inside_batch', 'final_trees_compared', 'page_events', 'nothing_to_do_runs', 'real_kills_compared']
+REQUIRED = ['xml_only_scenarios', 'widened_request_scenarios', 'scenarios_with_folders_from_the_configuration_file', 'scenarios_with_glob_characters_in_the_output_path', 'lmdb_scenarios', 'decoder_batch_runs', 'scenarios', 'crash_runs', 'resume_runs', 'crashes_inside_batch', 'final_trees_compared', 'page_events', 'nothing_to_do_runs', 'real_kills_compared']
 KNOWN_CROPS = 'line crops are the only requested output'
-IDS = ('a', 'b.v2', 'c.jpg_x', 'd.xml', 'e.logits.1', 'f', 'f.b', '.cover')     # '.cover': a hidden-file name; 'b.v2' and 'f': their input PAGE XML names another image file; 'f' / 'f.b': file-name order (f.b.png < f.png) and id order (f < f.b) disagree
+IDS = ('a', 'a-1', 'b.v2', 'c.jpg_x', 'd.xml', 'e.logits.1', 'f', 'f.b', '.cover')     # 'a-1': its crop files a-1-<line>.jpg also match the pattern a-*.jpg of page 'a'; '.cover': a hidden-file name; 'b.v2' and 'f': their input PAGE XML names another image file; 'f' / 'f.b': file-name order (f.b.png < f.png) and id order (f < f.b) disagree
 ALL = ['xml', 'render', 'logits', 'alto', 'line']
 SHARDS = {'quick': 12, 'thorough': 16}
 TIMEOUT = {'quick': 900, 'thorough': 10800}
@@ -335,9 +335,71 @@ def decoder_batch(mon, ctx):
         ctx.root = saved_root
 
 
+def xml_only_batch(mon, ctx):
+    """a batch that reads PAGE XML + logits and no images (ALTO / PAGE XML produced from stored recognition results): crash, resume, nothing-to-do"""
+    ref_out, ref, _, res0, _ = reference(ctx, ['xml', 'logits'], mon)
+    if res0 != 'ok':
+        return
+    cfgp = os.path.join(ctx.tmpdir, 'xmlonly.ini')
+    with open(cfgp, 'w') as f:
+        f.write('[PAGE_PARSER]\nRUN_LAYOUT_PARSER = no\nRUN_LINE_CROPPER = no\nRUN_OCR = no\nRUN_DECODER = no\n')
+
+    def go(out, crash_at):
+        ctx.state['crash_at'], ctx.state['n'] = crash_at, 0
+        del ctx.events[:]; del ctx.proc[:]
+        argv = ['parse_folder.py', '-c', cfgp, '-x', ref_out + '/xml', '--input-logit-path', ref_out + '/logits', '--device', 'cpu', '-s',
+                '--output-alto-path', out + '/alto', '--output-xml-path', out + '/xml']
+        return pipeline.run_main(ctx.PF, argv, crash_exc=Kill), list(ctx.proc)
+    full = os.path.join(ctx.tmpdir, 'xo_full')
+    r, pr = go(full, None)
+    want = pipeline.snapshot(full)
+    mon.cur_desc = {'leg': 'batch without images (PAGE XML + logits in, PAGE XML + ALTO out)'}
+    if r != 'ok' or len(want) != 2 * len(IDS):
+        mon.violation('harness:exception', {'note': 'XML-only reference run did not behave as planned', 'status': r, 'files': len(want)})
+        return
+    for crash_at in (4, 11, 19):
+        out = os.path.join(ctx.tmpdir, 'xo_%d' % crash_at)
+        r1, _ = go(out, crash_at)
+        r2, pr2 = go(out, None)
+        r3, pr3 = go(out, None)
+        mon.count('xml_only_scenarios')
+        mon.count('extra_evaluations')
+        got = pipeline.snapshot(out)
+        if r2 != 'ok' or r3 != 'ok':
+            mon.violation('resumed-run-exits-cleanly' if r2 != 'ok' else 'nothing-left-to-do-exits-cleanly', {'configuration': 'no image input', 'crash_position': crash_at, 'statuses': [r1, r2, r3]})
+        elif got != want:
+            mon.violation('every-requested-output-present', {'configuration': 'no image input', 'crash_position': crash_at, 'missing': sorted(set(want) - set(got))[:6]})
+        elif pr3:
+            mon.violation('complete-pages-not-processed-again', {'configuration': 'no image input', 'reprocessed': pr3})
+
+
+def widened_request(mon, ctx):
+    """history over runs that request different outputs: a run asking for PAGE XML + ALTO is killed (or completes), the next -s run also asks for the logits:
+    every output requested by the LAST run ends up present for every page"""
+    k2 = ['xml', 'logits', 'alto']
+    ref_out, ref, nw, res0, _ = reference(ctx, k2, mon)
+    for crash_at in (None, 9, 22):
+        out = os.path.join(ctx.tmpdir, 'wr_%s' % crash_at)
+        r1 = run(ctx, out, ['xml', 'alto'], crash_at=crash_at)[0]
+        r2, _, pr2 = run(ctx, out, k2)
+        mon.count('widened_request_scenarios')
+        mon.count('extra_evaluations')
+        mon.cur_desc = {'leg': 'first run xml+alto (crash at %s), second run xml+logits+alto' % crash_at}
+        got = pipeline.snapshot(out)
+        missing = sorted(set(ref) - set(got))
+        if r2 != 'ok':
+            mon.violation('resumed-run-exits-cleanly', {'status': r2, 'first_run': r1})
+        elif missing:
+            mon.violation('every-requested-output-present', {'first_run_outputs': ['xml', 'alto'], 'second_run_outputs': k2, 'crash_position_in_first_run': crash_at, 'missing': missing[:6], 'n_missing': len(missing)})
+
+
 def extra(mon, ctx):
     if ctx.shard == 1 % ctx.nshards:
         decoder_batch(mon, ctx)
+    if ctx.shard == 2 % ctx.nshards:
+        xml_only_batch(mon, ctx)
+    if ctx.shard == 3 % ctx.nshards:
+        widened_request(mon, ctx)
     if ctx.shard != 0:
         return
     kinds = ALL
